@@ -1,6 +1,7 @@
 package c15
 
 import (
+	"context"
 	"crypto"
 	"crypto/ecdsa"
 	"crypto/ed25519"
@@ -10,8 +11,13 @@ import (
 	"fmt"
 	"math/big"
 	"net/url"
+	"reflect"
 	"sort"
 	"strings"
+	"time"
+
+	"github.com/zitadel/oidc/v3/pkg/oidc"
+	"github.com/zitadel/oidc/v3/pkg/op"
 
 	"verif/harness/vkit"
 )
@@ -19,7 +25,9 @@ import (
 // buildSUT builds a provider with every optional storage capability (extras: incl. the third-party token verifier).
 // The vkit store is diligent about the one thing the framework delegates to ValidateTokenExchangeRequest: the liveness
 // of access tokens presented as subject / actor (TEPolicy.NoLivenessCheck switches that off).
-func buildSUT(router, issuer string, cryptoKey byte, st *vkit.Store, extras, hosts bool) *vkit.SUT {
+// tp: the parts of the storage's token-exchange policy that this package adds on top of the vkit store (which actor the
+// storage publishes, which role its third-party verifier vouches in); the zero value is the plain vkit store.
+func buildSUT(router, issuer string, cryptoKey byte, st *vkit.Store, extras, hosts bool, tp tePlus) *vkit.SUT {
 	spec := vkit.DefaultProviderSpec(router)
 	spec.Issuer = issuer
 	if hosts {
@@ -28,7 +36,203 @@ func buildSUT(router, issuer string, cryptoKey byte, st *vkit.Store, extras, hos
 	}
 	spec.CryptoKey = cryptoKey
 	spec.Caps = vkit.Caps{CC: true, TE: true, Device: true, Extras: extras}
-	return vkit.MustBuild(spec, st)
+	if tp == (tePlus{}) {
+		return vkit.MustBuild(spec, st)
+	}
+	return buildWrapped(spec, st, tp)
+}
+
+// ---------------------------------------------------------------------------
+// Storage policies the vkit store does not have: a thin wrapper around the shaped vkit store (same optional capabilities,
+// every call delegated, the journal stays the store's) that rewrites two decisions of the storage.
+
+// tePlus: Act = which `act` claim the storage publishes in the tokens of an exchange (see decideAct); VouchRole = in which
+// role the storage's TokenExchangeTokensVerifierStorage vouches for third-party tokens ("" both | subject-only | actor-only).
+type tePlus struct {
+	Act       string
+	VouchRole string
+}
+
+var (
+	actPolicies = []string{"", "rename", "nested", "extra", "none", "always"}
+	vouchRoles  = []string{"", "subject-only", "actor-only"}
+)
+
+const gatewayActor = "svc-gateway"
+
+// decideAct is the storage policy's decision on the `act` claim of the issued token: actor = the subject of the verified
+// actor token ("" = no actor token was presented). nil = the storage publishes no actor.
+//
+//	""      {sub: actor} for a delegation, nothing for an impersonation (what the vkit store does by itself)
+//	rename  pseudonymous actor ids: {sub: "agent:" + actor}
+//	nested  the gateway the request came through acts for the actor: {sub: gateway, act: {sub: actor}}
+//	extra   further members: {sub: actor, client_id: ..., iss: ...}
+//	none    the storage never publishes an actor
+//	always  every exchange goes through the gateway: {sub: gateway} also without an actor token, nested as above with one
+func decideAct(policy, actor string) map[string]any {
+	switch policy {
+	case "none":
+		return nil
+	case "always":
+		if actor == "" {
+			return map[string]any{"sub": gatewayActor}
+		}
+		return map[string]any{"sub": gatewayActor, "act": map[string]any{"sub": actor}}
+	}
+	if actor == "" {
+		return nil
+	}
+	switch policy {
+	case "rename":
+		return map[string]any{"sub": "agent:" + actor}
+	case "nested":
+		return map[string]any{"sub": gatewayActor, "act": map[string]any{"sub": actor}}
+	case "extra":
+		return map[string]any{"sub": actor, "client_id": "client-gw", "iss": "https://idp.example.net"}
+	}
+	return map[string]any{"sub": actor}
+}
+
+// actDependsOnActor: the decision needs the actor token's subject.
+func actDependsOnActor(policy string) bool { return policy != "none" }
+
+// sameAct compares the `act` member of an issued JWT (decoded JSON) with the storage's decision (nil = must be absent).
+func sameAct(claims map[string]any, want map[string]any) bool {
+	got, has := claims["act"]
+	if want == nil {
+		return !has
+	}
+	return has && reflect.DeepEqual(got, any(want))
+}
+
+type teActing struct {
+	inner op.TokenExchangeStorage
+	tp    tePlus
+}
+
+func (t teActing) ValidateTokenExchangeRequest(ctx context.Context, r op.TokenExchangeRequest) error {
+	return t.inner.ValidateTokenExchangeRequest(ctx, r)
+}
+func (t teActing) CreateTokenExchangeRequest(ctx context.Context, r op.TokenExchangeRequest) error {
+	return t.inner.CreateTokenExchangeRequest(ctx, r)
+}
+func (t teActing) GetPrivateClaimsFromTokenExchangeRequest(ctx context.Context, r op.TokenExchangeRequest) (map[string]any, error) {
+	claims, err := t.inner.GetPrivateClaimsFromTokenExchangeRequest(ctx, r)
+	if err != nil {
+		return claims, err
+	}
+	act := decideAct(t.tp.Act, r.GetExchangeActor())
+	if act == nil {
+		delete(claims, "act")
+		return claims, nil
+	}
+	if claims == nil {
+		claims = map[string]any{}
+	}
+	claims["act"] = act
+	return claims, nil
+}
+func (t teActing) SetUserinfoFromTokenExchangeRequest(ctx context.Context, ui *oidc.UserInfo, r op.TokenExchangeRequest) error {
+	if err := t.inner.SetUserinfoFromTokenExchangeRequest(ctx, ui, r); err != nil {
+		return err
+	}
+	delete(ui.Claims, "act")
+	if act := decideAct(t.tp.Act, r.GetExchangeActor()); act != nil {
+		ui.AppendClaims("act", act)
+	}
+	return nil
+}
+
+type roleVerifier struct {
+	inner op.TokenExchangeTokensVerifierStorage
+	role  string
+}
+
+var errNotVouched = fmt.Errorf("third party token is not accepted in this role")
+
+func (v roleVerifier) VerifyExchangeSubjectToken(ctx context.Context, token string, tt oidc.TokenType) (string, string, map[string]any, error) {
+	if v.role == "actor-only" {
+		return "", "", nil, errNotVouched
+	}
+	return v.inner.VerifyExchangeSubjectToken(ctx, token, tt)
+}
+func (v roleVerifier) VerifyExchangeActorToken(ctx context.Context, token string, tt oidc.TokenType) (string, string, map[string]any, error) {
+	if v.role == "subject-only" {
+		return "", "", nil, errNotVouched
+	}
+	return v.inner.VerifyExchangeActorToken(ctx, token, tt)
+}
+
+// the library detects optional capabilities by type assertion: one wrapper type per capability set used here
+type (
+	wrapped struct {
+		op.Storage
+		op.ClientCredentialsStorage
+		op.DeviceAuthorizationStorage
+		teActing
+	}
+	wrappedExtras struct {
+		wrapped
+		op.CanTerminateSessionFromRequest
+		op.CanSetUserinfoFromRequest
+		op.CanGetPrivateClaimsFromRequest
+		op.JWTProfileTokenStorage
+		roleVerifier
+	}
+)
+
+func wrapStorage(shaped op.Storage, extras bool, tp tePlus) op.Storage {
+	w := wrapped{shaped, shaped.(op.ClientCredentialsStorage), shaped.(op.DeviceAuthorizationStorage), teActing{shaped.(op.TokenExchangeStorage), tp}}
+	if !extras {
+		return w
+	}
+	return wrappedExtras{w, shaped.(op.CanTerminateSessionFromRequest), shaped.(op.CanSetUserinfoFromRequest), shaped.(op.CanGetPrivateClaimsFromRequest),
+		shaped.(op.JWTProfileTokenStorage), roleVerifier{shaped.(op.TokenExchangeTokensVerifierStorage), tp.VouchRole}}
+}
+
+// buildWrapped: vkit.Build for the specs of this package (default endpoints, static or host-derived issuer), with the
+// wrapped storage handed to the provider.
+func buildWrapped(spec vkit.ProviderSpec, st *vkit.Store, tp tePlus) *vkit.SUT {
+	cfg := &op.Config{
+		DefaultLogoutRedirectURI: spec.DefaultLogoutURI,
+		CodeMethodS256:           spec.S256,
+		AuthMethodPost:           spec.Post,
+		AuthMethodPrivateKeyJWT:  spec.PKJWT,
+		GrantTypeRefreshToken:    spec.Refresh,
+		RequestObjectSupported:   spec.ReqObj,
+		DeviceAuthorization: op.DeviceAuthorizationConfig{
+			Lifetime: time.Duration(spec.Device.LifetimeS) * time.Second, PollInterval: time.Duration(spec.Device.PollS) * time.Second,
+			UserFormPath: spec.Device.UserFormPath, UserFormURL: spec.Device.UserFormURL,
+			UserCode: op.UserCodeConfig{CharSet: spec.Device.CharSet, CharAmount: spec.Device.CharAmount, DashInterval: spec.Device.DashInterval},
+		},
+	}
+	for i := range cfg.CryptoKey {
+		cfg.CryptoKey[i] = byte(i*7+3) ^ spec.CryptoKey
+	}
+	alg := st.SignKey.Alg
+	opts := []op.Option{
+		op.WithLogger(vkit.DiscardLogger()),
+		op.WithAccessTokenVerifierOpts(op.WithSupportedAccessTokenSigningAlgorithms(alg)),
+		op.WithIDTokenHintVerifierOpts(op.WithSupportedIDTokenHintSigningAlgorithms(alg)),
+	}
+	issuerFn := op.StaticIssuer(spec.Issuer)
+	if spec.IssuerMode == "host" {
+		issuerFn = op.IssuerFromHost(spec.Issuer)
+	}
+	defer vkit.RestoreDefaultEndpoints()
+	p, err := op.NewProvider(cfg, wrapStorage(st.Shaped(spec.Caps), spec.Caps.Extras, tp), issuerFn, opts...)
+	if err != nil {
+		panic(fmt.Sprintf("c15: build provider: %v", err))
+	}
+	sut := &vkit.SUT{Spec: spec, Store: st, Provider: p, Host: "op.example.com", Paths: map[string]string{
+		"authorization": "/authorize", "token": "/oauth/token", "introspection": "/oauth/introspect", "userinfo": "/userinfo",
+		"revocation": "/revoke", "end_session": "/end_session", "keys": "/keys", "device_authorization": "/device_authorization"}}
+	if spec.Router == "legacy" {
+		sut.Handler = op.RegisterLegacyServer(op.NewLegacyServer(p, vkit.PristineEndpoints()), op.AuthorizeCallbackHandler(p), op.WithFallbackLogger(vkit.DiscardLogger()))
+	} else {
+		sut.Handler = p
+	}
+	return sut
 }
 
 // ---------------------------------------------------------------------------
@@ -92,16 +296,27 @@ func claimStr(m map[string]any, k string) string {
 	return s
 }
 
-func actSub(m map[string]any) (string, bool) {
-	a, ok := m["act"]
-	if !ok || a == nil {
-		return "", false
+func jsonOf(v any) string {
+	if m, ok := v.(map[string]any); v == nil || ok && m == nil {
+		return "(absent)"
 	}
-	am, ok := a.(map[string]any)
-	if !ok {
-		return fmt.Sprint(a), true
+	b, _ := json.Marshal(v)
+	return string(b)
+}
+
+// actShape names how the storage's decision relates to the actor token's subject (label only).
+func actShape(want map[string]any, actor string) string {
+	switch {
+	case want == nil && actor == "":
+		return "none/no-actor-token"
+	case want == nil:
+		return "none-despite-actor-token"
+	case actor == "":
+		return "act-without-actor-token"
+	case len(want) == 1 && want["sub"] == actor:
+		return "actor-token-subject"
 	}
-	return claimStr(am, "sub"), true
+	return "differs-from-actor-token-subject"
 }
 
 // reforge re-issues the payload of a JWT with edits, signed with the given key / header (used for expired, foreign-key,
